@@ -32,7 +32,13 @@ type Set struct {
 	hit     map[string]int
 }
 
-const Path = "/verif/known_findings.json"
+// Path of the committed findings file (VERIF_ROOT only moves it together with the whole framework).
+var Path = func() string {
+	if d := os.Getenv("VERIF_ROOT"); d != "" {
+		return d + "/known_findings.json"
+	}
+	return "/verif/known_findings.json"
+}()
 
 func Load() (*Set, error) {
 	s := &Set{hit: map[string]int{}}
